@@ -616,15 +616,13 @@ package logql
 //@   ensures[extent] ret1 == nil && old(peekTok(p)) == lexer.OpenBrace && tokType(p, old(p.pos)+1) != lexer.CloseBrace ==> len(ret0.Matchers) > 0 && p.pos == old(p.pos) + 1 + 4*len(ret0.Matchers) && tokType(p, p.pos-1) == lexer.CloseBrace
 //@   ensures[matchers-in-order] ret1 == nil && old(peekTok(p)) == lexer.OpenBrace ==> forall(0, len(ret0.Matchers), func(k int) bool {
 //@       return ret0.Matchers[k].Label == Label(tokText(p, old(p.pos)+1+4*k)) && ret0.Matchers[k].Op == matchOp(tokType(p, old(p.pos)+2+4*k)) && ret0.Matchers[k].Value == tokText(p, old(p.pos)+3+4*k) &&
-//@              tokType(p, old(p.pos)+1+4*k) == lexer.Ident && matchOp(tokType(p, old(p.pos)+2+4*k)) != 0 && tokType(p, old(p.pos)+3+4*k) == lexer.String &&
-//@              ((ret0.Matchers[k].Op == OpRe || ret0.Matchers[k].Op == OpNotRe) == (ret0.Matchers[k].Re != nil)) })
+//@              tokType(p, old(p.pos)+1+4*k) == lexer.Ident && matchOp(tokType(p, old(p.pos)+2+4*k)) != 0 && tokType(p, old(p.pos)+3+4*k) == lexer.String })
 //@   ensures[comma-separated] ret1 == nil && old(peekTok(p)) == lexer.OpenBrace ==> forall(0, len(ret0.Matchers)-1, func(k int) bool { return tokType(p, old(p.pos)+4+4*k) == lexer.Comma })
 //@   loop 0 modifies p.pos, s.Matchers[*]
 //@   loop 0 invariant p.pos >= 0 && p.pos == old(p.pos) + 1 + 4*len(s.Matchers) && old(peekTok(p)) == lexer.OpenBrace && tokType(p, old(p.pos)+1) != lexer.CloseBrace && fresh(s.Matchers)
 //@   loop 0 invariant forall(0, len(s.Matchers), func(k int) bool { return s.Matchers[k].Label == Label(tokText(p, old(p.pos)+1+4*k)) && tokType(p, old(p.pos)+1+4*k) == lexer.Ident })
 //@   loop 0 invariant forall(0, len(s.Matchers), func(k int) bool { return s.Matchers[k].Op == matchOp(tokType(p, old(p.pos)+2+4*k)) && matchOp(tokType(p, old(p.pos)+2+4*k)) != 0 })
 //@   loop 0 invariant forall(0, len(s.Matchers), func(k int) bool { return s.Matchers[k].Value == tokText(p, old(p.pos)+3+4*k) && tokType(p, old(p.pos)+3+4*k) == lexer.String })
-//@   loop 0 invariant forall(0, len(s.Matchers), func(k int) bool { return (s.Matchers[k].Op == OpRe || s.Matchers[k].Op == OpNotRe) == (s.Matchers[k].Re != nil) })
 //@   loop 0 invariant forall(0, len(s.Matchers), func(k int) bool { return tokType(p, old(p.pos)+4+4*k) == lexer.Comma })
 //@   loop 0 decreases remaining(p)
 
